@@ -49,6 +49,10 @@ CHECKS = {
         technique='property-based testing: generated tagged DAGs, frame-condition oracle from an independent graph walk, dict-of-sets model for tag operation histories, round trips through five subsystems',
         text='Generated DAGs carry tags from a class hierarchy on keyword, positional-only, *args and **kwargs arguments (with and without values), Annotated tags, shared tagged nodes and TaggedValues in containers; set_tagged / select(tag=).replace must set exactly the arguments whose tag set contains a subclass of T and change nothing else; list_tags must equal the reference union; generated add/remove/set/clear/get histories (by name and index, valid and invalid) are compared with a set model; tags must survive copy, deepcopy, pickle, cast, JSON and diff application; TaggedValues build to their value or fail.',
         note='Trusted: harness/canon.py, TagModel in props/c14.py. Tags on *args slots that do not exist are skipped as unspecified.'),
+    'C15': dict(
+        technique='property-based testing: generated DAGs over a class hierarchy x selection parameters x operation; expected node set from an independent graph walk, recursive frame condition for replace',
+        text='For generated DAGs (functions and Base<-Mid<-LeafCls/Other classes under Config and Partial, matches shared, nested in other matches and in containers), every F x match_subclasses x buildable_type, the selection must iterate exactly the reference identity set once each, set/get must touch exactly those nodes, replace (both deepcopy modes, also with v equal to a matching node) must put v at every reference to a match while every other Buildable keeps identity and arguments recursively from the root, replace on a root match must raise, and tag selections must yield value / default / NO_VALUE.',
+        note='Trusted: harness/canon.walk, the matches() predicate and expect() recursion in props/c15.py.'),
 }
 
 PENDING = {}
